@@ -78,6 +78,23 @@ SMALL_GROW = [Fraction(5, 4), Fraction(3, 2), Fraction(9, 8), Fraction(2), Fract
 MAX_MUT_OPS = 10          # 4 bits per factor + 3 initial bits stay far below float64's 53
 
 
+def drive(chk: Check, lines: list) -> list:
+    """`chk.driver.run`, patient while a concurrent `lake build` re-links the shared driver executable"""
+    import time
+    for attempt in range(30):
+        try:
+            return chk.driver.run(lines)
+        except InfraError as e:
+            if "missing" not in str(e) and "exited" not in str(e) or attempt == 29:
+                raise
+            time.sleep(2)
+        except (PermissionError, OSError):
+            if attempt == 29:
+                raise
+            time.sleep(2)
+    raise InfraError("driver unavailable")
+
+
 # ----------------------------------------------------------------------------- exact arithmetic
 def py_trunc(q: Fraction) -> int:
     return math.trunc(q)
@@ -427,7 +444,7 @@ def check_mutated(j, a, before, others_before, hps, table, where, problems, tags
     lo, hi = Fraction(hp["lo"]), Fraction(hp["hi"])
     rlo, rhi = cast(hp["dt"], lo), cast(hp["dt"], hi)
     if Fraction(new) not in exp:
-        foreign = [k for k, ob in enumerate(others_before)
+        foreign = [k for k, ob in others_before
                    if Fraction(new) in expected_values(hp, ob["hp"][mut]) and ob["hp"][mut] != own]
         hint = f"; it IS agent {foreign[0]}'s value × factor" if foreign else ""
         problems.append(f"{where}: agent {j} (index {a.index}) {mut}: {frac(own)} -> {frac(new)}, but own value × "
@@ -524,7 +541,7 @@ def run_case(case: dict):
             model.append(f"hpmut mut {j} {frac(coin)} " + " ".join(map(str, perm)))
             k = names.index(a.mut) if a.mut in names else -1
             impl.append(f"{k} {tag_of(getattr(a, a.mut, None))} {frac(getattr(a, a.mut))}" if k >= 0 else str(a.mut))
-            check_mutated(j, a, snap[j], [x for i, x in enumerate(snap) if i != j], hps, table, where, problems, tags, sh)
+            check_mutated(j, a, snap[j], [(i, x) for i, x in enumerate(snap) if i != j], hps, table, where, problems, tags, sh)
             for i, b in enumerate(pop):
                 if i == j:
                     continue
@@ -549,7 +566,7 @@ def run_case(case: dict):
                 model.append(f"hpmut mut {j} {frac(coin)} " + " ".join(map(str, perm)))
                 k = names.index(a.mut) if a.mut in names else -1
                 impl.append(f"{k} {tag_of(getattr(a, a.mut, None))} {frac(getattr(a, a.mut))}" if k >= 0 else str(a.mut))
-                check_mutated(j, a, snap[j], [x for i, x in enumerate(snap) if i != j], hps, table, where, problems,
+                check_mutated(j, a, snap[j], [(i, x) for i, x in enumerate(snap) if i != j], hps, table, where, problems,
                               tags, shs[j])
             tags.append("op-mutall")
         elif op[0] == "clone":
@@ -597,7 +614,7 @@ def one_case(chk: Check, case: dict):
         raise
     except Exception as e:  # the implementation raised on a legal sequence
         return None, [f"implementation raised {type(e).__name__}: {e}"], [], [], [], []
-    model_out = chk.driver.run(["reset"] + model_ops)[1:]
+    model_out = drive(chk, ["reset"] + model_ops)[1:]
     diff = next((i for i, (a, b) in enumerate(zip(impl, model_out)) if a != b), None)
     # de-duplicate oracle messages, keep order
     problems = list(dict.fromkeys(problems))
@@ -626,7 +643,19 @@ def shrink_case(chk: Check, case: dict, by_oracle: bool) -> dict:
                     small = cand
             except InfraError:
                 pass
-    return small
+    return normalize_ops(small)
+
+
+def normalize_ops(case: dict) -> dict:
+    """agent indices are taken modulo the current population size; write them out"""
+    size, ops = case["pop"], []
+    for op in case["ops"]:
+        if op[0] in ("mut", "clone"):
+            ops.append([op[0], op[1] % size])
+            size += op[0] == "clone"
+        else:
+            ops.append(op)
+    return {**case, "ops": ops}
 
 
 def script_for(case: dict) -> str:
@@ -678,7 +707,7 @@ def probe_rejects_unknown_hp(chk: Check) -> None:
         got = "ok"
     except AttributeError:
         got = "reject"
-    out = chk.driver.run(["reset", "hpmut cfg 2 1/4096 1/16 4/5 6/5 f 1 2 4/5 6/5 f", "hpmut opts 1 0 1",
+    out = drive(chk, ["reset", "hpmut cfg 2 1/4096 1/16 4/5 6/5 f 1 2 4/5 6/5 f", "hpmut opts 1 0 1",
                           "hpmut pop own all 1 1/1024"])
     chk.case(["reject-unknown-hp"], nontrivial=False, tags=["probe-reject"])
     if got != out[-1]:
@@ -735,11 +764,12 @@ def run(chk: Check) -> None:
         lines.append(line)
         impls.append(res)
         per_case.append((c, problems, tags))
-    outs = chk.driver.run(["reset"] + lines)[1:]
-    for (c, problems, tags), res, out in zip(per_case, impls, outs):
+    outs = drive(chk, ["reset"] + lines)[1:]
+    for i1, ((c, problems, tags), res, out) in enumerate(zip(per_case, impls, outs)):
         key = [c[k] for k in ("lo", "hi", "shrink", "grow", "dt", "v")] + [tags[-1]]
         chk.case(key, nontrivial=any(t in ("m1-clipped", "m1-truncating") for t in tags),
-                 sample={"suite": "mutate1", **{k: c[k] for k in ("lo", "hi", "shrink", "grow", "dt", "v")}, "result": res},
+                 sample={"suite": "mutate1", **{k: c[k] for k in ("lo", "hi", "shrink", "grow", "dt", "v")},
+                         "result": res} if i1 < 2 else None,
                  tags=tags)
         if problems:
             bad1 += 1
@@ -881,7 +911,7 @@ def replay(chk: Check, path: str) -> int:
     c = c.get("replay", c)
     if c.get("suite") == "mutate1":
         res, line, problems, _ = run_mutate1(c)
-        out = chk.driver.run(["reset", line])[1]
+        out = drive(chk, ["reset", line])[1]
         print(json.dumps({"op": line, "impl": res, "model": out, "oracle_problems": problems}, indent=1))
         if problems:
             print(f"VIOLATION property=C06 replay={path}")
@@ -901,7 +931,7 @@ def replay(chk: Check, path: str) -> int:
         for sem in ("own", "cached"):
             for om in ("all", "first"):
                 ops = [l.replace("hpmut pop own all", f"hpmut pop {sem} {om}") for l in model_ops]
-                variants[f"{sem}/{om}"] = chk.driver.run(["reset"] + ops)[1:] == impl
+                variants[f"{sem}/{om}"] = drive(chk, ["reset"] + ops)[1:] == impl
     except Exception:
         pass
     print(json.dumps({"case": {k: c[k] for k in ("algo", "pop", "via", "hps", "ops", "seed") if k in c},
